@@ -161,8 +161,8 @@ theorem cexpr_fromCtx {env : Env} {file : AFile} {G : List String} {Γ : Ctx} {K
     simp only [fragC, Bool.or_eq_true] at h
     cases f with
     | var name fty =>
-      rcases h with ((h | h) | h) | h
-      case inl.inl.inr =>
+      rcases h with (((h | h) | h) | h) | h
+      case inl.inl.inl.inr =>
         obtain ⟨helper, hty, tys, hshape, hcs, hargs⟩ := refcall_shape h
         obtain ⟨h3, h4⟩ := imms_fromCtx env (calleesC (Γ.map (·.1)) (.call (.var name fty) args ty)) hargs
         rw [hshape]
@@ -171,7 +171,7 @@ theorem cexpr_fromCtx {env : Env} {file : AFile} {G : List String} {Γ : Ctx} {K
         rcases hy with rfl | hy
         · exact Or.inr (Or.inl (by rw [hcs]; exact List.mem_singleton.mpr rfl))
         · exact h3 y hy
-      case inl.inr =>
+      case inl.inl.inr =>
         obtain ⟨helper, tys, hshape, hcs, hargs⟩ := arrcall_shape h
         obtain ⟨h3, h4⟩ := imms_fromCtx env (calleesC (Γ.map (·.1)) (.call (.var name fty) args ty)) hargs
         rw [hshape]
@@ -180,7 +180,7 @@ theorem cexpr_fromCtx {env : Env} {file : AFile} {G : List String} {Γ : Ctx} {K
         rcases hy with rfl | hy
         · exact Or.inr (Or.inl (by rw [hcs]; exact List.mem_singleton.mpr rfl))
         · exact h3 y hy
-      case inr =>
+      case inl.inr =>
         simp only [localCallOK] at h
         cases hlk : lookupTy Γ name with
         | none => rw [hlk] at h; cases h
@@ -199,6 +199,97 @@ theorem cexpr_fromCtx {env : Env} {file : AFile} {G : List String} {Γ : Ctx} {K
           rcases hy with rfl | hy
           · exact Or.inl ⟨name, _, hlk, rfl⟩
           · exact h3 y hy
+      case inr =>
+        simp only [vecCallOK, Bool.and_eq_true, beq_iff_eq] at h
+        obtain ⟨⟨hloc, hrn⟩, hcase⟩ := h
+        have hnone : lookupTy Γ name = none := by
+          cases hx : lookupTy Γ name with
+          | none => rfl
+          | some p => rw [hx] at hloc; simp at hloc
+        have hnb := lookupTy_none_nomem hnone
+        by_cases h1 : name = "vec_new"
+        · subst h1
+          rw [if_pos rfl] at hcase
+          cases args with
+          | cons a rest => simp at hcase
+          | nil =>
+            have hshape : compileCExpr env (.call (.var "vec_new" fty) [] ty) = .nil (goTy ty) := by
+              simp [compileCExpr, compileCall, callee, hrn]
+            rw [hshape]; simp [varsUsed, noBlockExpr]
+        · rw [if_neg h1] at hcase
+          by_cases h2 : name = "vec_push"
+          · subst h2
+            rw [if_pos rfl] at hcase
+            cases ty <;> simp only at hcase <;> try (cases hcase; done)
+            rename_i e
+            simp only [Bool.and_eq_true] at hcase
+            obtain ⟨h3, h4⟩ := imms_fromCtx env (calleesC (Γ.map (·.1)) (.call (.var "vec_push" fty) args (.vec e))) hcase.1
+            have hshape : compileCExpr env (.call (.var "vec_push" fty) args (.vec e)) =
+                .call (goTy (.vec e)) (.var "append" (goTy fty)) (compileImms env args) := by
+              simp [compileCExpr, compileCall, callee, hrn, Imm.ty]
+            rw [hshape]
+            simp only [varsUsed, noBlockExpr, mem_uni, Bool.and_eq_true, List.mem_singleton]
+            refine ⟨fun y hy => ?_, trivial, h4⟩
+            rcases hy with rfl | hy
+            · exact Or.inr (Or.inl (by simp [calleesC, goCallee, hrn, hnb]))
+            · exact h3 y hy
+          · rw [if_neg h2] at hcase
+            by_cases h3 : name = "vec_get"
+            · subst h3
+              rw [if_pos rfl] at hcase
+              cases args with
+              | nil => cases hcase
+              | cons a rest =>
+                cases rest with
+                | nil => cases hcase
+                | cons i rest =>
+                  simp only [Bool.and_eq_true] at hcase
+                  obtain ⟨⟨_, hargs⟩, _⟩ := hcase
+                  simp only [argsOK, Bool.and_eq_true] at hargs
+                  obtain ⟨⟨ha, _⟩, ⟨hi, _⟩, hrest⟩ := hargs
+                  cases rest with
+                  | cons r rs => simp [argsOK] at hrest
+                  | nil =>
+                    obtain ⟨a1, a2⟩ := imm_fromCtx env ha (calleesC (Γ.map (·.1)) (.call (.var "vec_get" fty) [a, i] ty))
+                    obtain ⟨i1, i2⟩ := imm_fromCtx env hi (calleesC (Γ.map (·.1)) (.call (.var "vec_get" fty) [a, i] ty))
+                    have hshape : compileCExpr env (.call (.var "vec_get" fty) [a, i] ty) =
+                        .index (goTy ty) (compileImm env a) (compileImm env i) := by
+                      simp [compileCExpr, compileCall, callee, hrn, compileImms]
+                    rw [hshape]
+                    simp only [varsUsed, noBlockExpr, mem_uni, Bool.and_eq_true]
+                    exact ⟨fun y hy => hy.elim (a1 y) (i1 y), a2, i2⟩
+            · rw [if_neg h3] at hcase
+              by_cases h4 : name = "vec_len"
+              · subst h4
+                rw [if_pos rfl] at hcase
+                cases args with
+                | nil => cases hcase
+                | cons a rest =>
+                  simp only at hcase
+                  cases haty : a.ty with
+                  | vec e =>
+                    rw [haty] at hcase; simp only [Bool.and_eq_true] at hcase
+                    obtain ⟨⟨hargs, _⟩, _⟩ := hcase
+                    simp only [argsOK, Bool.and_eq_true] at hargs
+                    obtain ⟨⟨ha, _⟩, hrest⟩ := hargs
+                    cases rest with
+                    | cons r rs => simp [argsOK] at hrest
+                    | nil =>
+                      obtain ⟨a1, a2⟩ := imm_fromCtx env ha (calleesC (Γ.map (·.1)) (.call (.var "vec_len" fty) [a] ty))
+                      have hshape : compileCExpr env (.call (.var "vec_len" fty) [a] ty) =
+                          .call (goTy ty) (.var "int32" (.func [.int 32 true] (.int 32 true)))
+                            [.call (.int 32 true) (.var "len" (.func [goTy a.ty] (.int 32 true))) [compileImm env a]] := by
+                        simp [compileCExpr, compileCall, callee, hrn, compileImms]
+                      rw [hshape]
+                      simp only [varsUsed, varsUsedList, noBlockExpr, noBlockList, mem_uni, Bool.and_eq_true, List.mem_singleton,
+                        List.not_mem_nil, or_false, Bool.and_true]
+                      refine ⟨fun y hy => ?_, trivial, trivial, a2⟩
+                      rcases hy with rfl | rfl | hy
+                      · exact Or.inr (Or.inl (by simp [calleesC, goCallee, hrn, hnb]))
+                      · exact Or.inr (Or.inl (by simp [calleesC, goCallee, hrn, hnb]))
+                      · exact a1 y hy
+                  | _ => rw [haty] at hcase; cases hcase
+              · rw [if_neg h4] at hcase; cases hcase
       simp only [compileCExpr, compileCall_frag h, varsUsed, noBlockExpr, mem_uni, Bool.and_eq_true, List.mem_singleton]
       simp only [callOK, Bool.and_eq_true, Bool.not_eq_true', beq_iff_eq] at h
       have hcs : calleesC (Γ.map (·.1)) (.call (.var name fty) args ty) = [vn name] := by
@@ -223,8 +314,8 @@ theorem cexpr_fromCtx {env : Env} {file : AFile} {G : List String} {Γ : Ctx} {K
       rcases hy with rfl | hy
       · exact Or.inr (Or.inl (by rw [hcs]; exact List.mem_singleton.mpr rfl))
       · exact h3 y hy
-    | prim p t => simp [callOK, refCallOK, arrCallOK, localCallOK] at h
-    | tag i t => simp [callOK, refCallOK, arrCallOK, localCallOK] at h
+    | prim p t => simp [callOK, refCallOK, arrCallOK, localCallOK, vecCallOK] at h
+    | tag i t => simp [callOK, refCallOK, arrCallOK, localCallOK, vecCallOK] at h
   | ite c t e ty => simp [isCtl] at hctl
   | «while» c b ty => simp [isCtl] at hctl
   | matchE s arms d ty => simp [isCtl] at hctl
